@@ -459,3 +459,81 @@ func TestC15Concurrent(t *testing.T) {
 		}
 	})
 }
+
+// TestC15Churn: "additions or removals at any point never ... starve a remaining
+// upstream". n long-lived upstreams of one endpoint stay registered while
+// short-lived ones connect and disconnect between the selections in a periodic
+// pattern (a crash-looping agent). With at most t short-lived upstreams alive at
+// once, one turn of the cursor passes every long-lived upstream.
+func TestC15Churn(t *testing.T) {
+	vlib.SetRule("C15", "TestC15Churn", "1-5 long-lived upstreams of one endpoint on the real LoadBalancedManager stay registered while 1-2 short-lived upstreams connect and disconnect between selections in a drawn periodic pattern (selections before the connect, between connect and disconnect, after the disconnect: 0-3 each, not all zero), repeated 6-40 times; oracle: every selection returns a registered upstream of the endpoint, and every window of 2(n+t)+2 consecutive selections contains every long-lived upstream (one turn of the cursor is at most n+t selections; the factor two is slack); non-trivial = a disconnect happened while the cursor rested on the last long-lived upstream")
+	vlib.Run(t, "C15", func(c *vlib.Case) {
+		cs := cluster.NewState(&cluster.Node{ID: "local", ProxyAddr: "p", AdminAddr: "a"}, log.NewNopLogger())
+		mgr := upstream.NewLoadBalancedManager(cs, nil)
+		ep := c.OneOf("ep", c15Eps...)
+		n := c.Int("longLived", 1, 5)
+		var stable []*fakeUp
+		for i := 0; i < n; i++ {
+			u := &fakeUp{ep: ep, id: i}
+			stable = append(stable, u)
+			mgr.AddConn(u)
+		}
+		// move the cursor somewhere first
+		for i, k := 0, c.Int("preSelect", 0, 2*n); i < k; i++ {
+			mgr.Select(ep, false)
+		}
+		tMax := c.Int("shortLived", 1, 2)
+		a, b, d := c.Int("selBefore", 0, 3), c.Int("selBetween", 0, 3), c.Int("selAfter", 0, 3)
+		if a+b+d == 0 {
+			a = 1
+		}
+		c.Header["long_lived"], c.Header["short_lived"], c.Header["pattern"] = n, tMax, fmt.Sprintf("%d sel, connect, %d sel, disconnect, %d sel", a, b, d)
+		W := 2*(n+tMax) + 2
+		var hist []*fakeUp
+		registered := map[*fakeUp]bool{}
+		for _, u := range stable {
+			registered[u] = true
+		}
+		sel := func(k int) {
+			for i := 0; i < k; i++ {
+				got, ok := mgr.Select(ep, false)
+				fu, _ := got.(*fakeUp)
+				if !ok || fu == nil || !registered[fu] {
+					c.Fatalf("C15: selection for %s returned %v (ok=%v), not a registered upstream", ep, got, ok)
+				}
+				hist = append(hist, fu)
+				if len(hist) >= W {
+					seen := map[*fakeUp]bool{}
+					for _, u := range hist[len(hist)-W:] {
+						seen[u] = true
+					}
+					for _, u := range stable {
+						if !seen[u] {
+							c.Fatalf("C15 starvation: long-lived upstream %v of %s was not selected in %d consecutive selections (%d long-lived, at most %d short-lived at a time, pattern %v): %v", u, ep, W, n, tMax, c.Header["pattern"], hist[len(hist)-W:])
+						}
+					}
+				}
+			}
+		}
+		id := 100
+		for r, rounds := 0, c.Int("rounds", 6, 40); r < rounds; r++ {
+			sel(a)
+			var ts []*fakeUp
+			for i := 0; i < tMax; i++ {
+				u := &fakeUp{ep: ep, id: id}
+				id++
+				ts = append(ts, u)
+				registered[u] = true
+				mgr.AddConn(u)
+			}
+			sel(b)
+			for _, u := range ts {
+				delete(registered, u)
+				mgr.RemoveConn(u)
+			}
+			sel(d)
+		}
+		c.NonTrivial()
+		c.Stepf("%d long-lived, pattern %v, %d selections", n, c.Header["pattern"], len(hist))
+	})
+}
